@@ -25,7 +25,7 @@ id_lc="$(echo "$ID" | tr 'A-Z' 'a-z')"
 
 BUILD="$(mktemp -d "${TMPDIR:-/tmp}/verif-$id_lc-XXXXXX")"
 export VERIF_BUILD="$BUILD"
-trap 'rm -rf "$BUILD"' EXIT
+trap '[ -n "${VERIF_KEEP:-}" ] && echo "kept $BUILD" >&2 || rm -rf "$BUILD"' EXIT  # VERIF_KEEP=1: debugging aid
 
 # per-check build flags: the race detector is part of the monitor where DESIGN.md says so
 RACE=""
